@@ -355,6 +355,7 @@ func genC17(rt *rapid.T, fam, op, form, mode string, same, iter bool) *C17Case {
 func TestC17(t *testing.T) {
 	n := nCases(4, 60)
 	c17FloatCells(t)
+	c17ConsCells(t)
 	for _, op := range arithOps {
 		for _, form := range []string{"TT", "TS", "ST"} {
 			for _, mode := range []string{"safe", "unsafe", "reuse", "incr"} {
